@@ -6,13 +6,25 @@ import (
 	"github.com/lixianmin/got/sortx"
 )
 
+// probeCap bounds the number of predicate evaluations the harness tolerates (the property
+// allows O(log n), i.e. at most a few hundred for any int): beyond it the call is aborted and
+// reported, so that a linear scan over 2^62 elements or a non-terminating loop cannot hang the
+// check.
+const probeCap = 4096
+
+func capProbes(l []int) {
+	if len(l) > probeCap {
+		panic(fmt.Sprintf("more than %d predicate evaluations (last index %d)", probeCap, l[len(l)-1]))
+	}
+}
+
 func init() {
 	// c14T n b e : threshold predicates less(k) = k<b, equal(k) = b<=k<e
 	register("c14T", func(toks []string) string {
 		n, b, e := atoi(toks[1]), atoi(toks[2]), atoi(toks[3])
 		var lp, ep []int
-		r := sortx.Search(n, func(k int) bool { lp = append(lp, k); return k < b },
-			func(k int) bool { ep = append(ep, k); return b <= k && k < e })
+		r := sortx.Search(n, func(k int) bool { lp = append(lp, k); capProbes(lp); return k < b },
+			func(k int) bool { ep = append(ep, k); capProbes(ep); return b <= k && k < e })
 		return fmt.Sprintf("r=%d lp=%s ep=%s", r, fmtInts(lp), fmtInts(ep))
 	})
 	list := func(desc bool) handler {
@@ -23,6 +35,7 @@ func init() {
 			// out-of-range probes are recorded (and answered false) instead of indexing
 			r := sortx.Search(len(l), func(k int) bool {
 				lp = append(lp, k)
+				capProbes(lp)
 				if k < 0 || k >= len(l) {
 					return false
 				}
@@ -32,6 +45,7 @@ func init() {
 				return l[k] < t
 			}, func(k int) bool {
 				ep = append(ep, k)
+				capProbes(ep)
 				if k < 0 || k >= len(l) {
 					return false
 				}
